@@ -9,7 +9,7 @@
 Not decided: that each sub-codec round-trips (C02's reason)."""
 import os
 from ..report import Run, Finding, rel
-from ..common import lib_module, configs_for, need_fn
+from ..common import lib_module, configs_for, need_fn, with_helpers_inlined
 from ..build import AnalysisBroken
 from ..core import World
 
@@ -196,7 +196,10 @@ def analyse(mod, run, label):
         e_calls = ec.get(val, ec.get("default", set())); d_calls = dc.get(val, dc.get("default", set()))
         explicit = (val in ecases or name == "VARINT_ADAPTIVE_TAGGED" and True) and (val in dcases or name == "VARINT_ADAPTIVE_TAGGED")
         if val in selret:
-            run.check(val in ecases and val in dcases, "A2-selectable-type-has-explicit-cases", {"type": name, "value": val},
+            # explicit on both sides, or handled by a default arm that calls this type's own codec (`case X: default:` and plain `default:`
+            # are the same program)
+            by_default = bool(fam) and (val in ecases or fam[0] in ec.get("default", set())) and (val in dcases or fam[1] in dc.get("default", set()))
+            run.check((val in ecases and val in dcases) or by_default, "A2-selectable-type-has-explicit-cases", {"type": name, "value": val},
                       Finding("A2-selectable-type-without-case", "varintAdaptiveEncodeWith/Decode", name, "case", "%s can be selected but is not an explicit case of %s" % (name, "the encoder" if val not in ecases else "the decoder")))
         if fam:
             run.check(fam[0] in e_calls and fam[1] in d_calls, "A2-same-codec-both-ways", {"type": name, "encoder_calls": sorted(e_calls)[:6], "decoder_calls": sorted(d_calls)[:6]},
@@ -213,14 +216,28 @@ def analyse(mod, run, label):
             thr = int(i.ops[1]["v"]) + (1 if i["pred"] in ("ugt", "ule") else 0); break
     if thr is None: raise AnalysisBroken("varintAdaptiveCountUnique: sampling threshold not found")
     import re as _re
-    for k, atoms in enumerate(paths):
-        missing = [a for a in BITMAP_DOMAIN if a not in atoms]
-        bounded = False
-        for a in atoms:
-            if a[0] == "cmp":
-                m = _re.match(r"count (ult|ule|!uge|!ugt) (\d+)$", a[1])
-                if m and int(m.group(2)) + (1 if m.group(1) in ("ule", "!ugt") else 0) <= thr: bounded = True
-        if not bounded: missing.append(("field", "count < %d (exact unique count)" % thr, True))
+    def judged(paths_):
+        out_ = []
+        for atoms in paths_:
+            missing = [a for a in BITMAP_DOMAIN if a not in atoms]
+            bounded = False
+            for a in atoms:
+                if a[0] == "cmp":
+                    m = _re.match(r"count (ult|ule|!uge|!ugt) (\d+)$", a[1])
+                    if m and int(m.group(2)) + (1 if m.group(1) in ("ule", "!ugt") else 0) <= thr: bounded = True
+            if not bounded: missing.append(("field", "count < %d (exact unique count)" % thr, True))
+            out_.append((atoms, missing))
+        return out_
+    verdicts = judged(paths)
+    if any(m for _, m in verdicts) and label in ("ndebug", "asserts", "native"):
+        # the predicates may have been given names (static helpers taking the statistics): read the decision tree with those inlined;
+        # that reading is used only if it establishes the domain on every path
+        m2, sel2 = with_helpers_inlined(mod, sel, label)
+        if m2 is not None:
+            v2 = judged(paths_to_ret(sel2, m2, ev["VARINT_ADAPTIVE_BITMAP"]))
+            if v2 and not any(m for _, m in v2):
+                verdicts = v2; run.observe("A3: selector read with its file-local predicate helpers inlined")
+    for k, (atoms, missing) in enumerate(verdicts):
         def fmt(a): return "%s is %s" % (a[1], a[2]) if a[0] == "field" else "%s == %s" % (a[1], a[2])
         run.check(not missing, "A3-bitmap-selection-within-domain", {"path": [fmt(a) if a[0] != "cmp" else a[1] for a in atoms]},
                   Finding("A3-bitmap-selected-outside-domain", sel.name, "BITMAP", "path-" + "+".join(sorted(fmt(a) for a in atoms if a[0] == "field" and a[2])),
@@ -243,6 +260,9 @@ def analyse(mod, run, label):
             ci = ana.imap[v["v"]] if v["k"] == "inst" else None
             x = strip(ana, ci.ops[0]) if ci is not None and ci.op == "icmp" else None
             isMax = x is not None and x["k"] == "inst" and ana.imap[x["v"]].op == "load" and field_of(ana, mod, ana.imap[x["v"]].ops[0]) == "maxValue"
+            if not isMax and x is not None and x["k"] == "inst":
+                # the maximum kept in a local and stored to stats->maxValue as well: the value compared is the value reported
+                isMax = any(j.op == "store" and field_of(ana, mod, j.ops[1]) == "maxValue" and strip(ana, j.ops[0]).get("v") == x["v"] and strip(ana, j.ops[0])["k"] == "inst" for j in ana.insts())
             fits.append((i, excl_bound(ana, ci) if isMax else None))
     if not fits: raise AnalysisBroken("A5: no store to fitsInBitmapRange in varintAdaptiveAnalyze")
     # the BITMAP arm: every varintBitmapAdd is guarded by value < K2, and its argument is that value truncated to 16 bits
@@ -302,7 +322,7 @@ def analyse(mod, run, label):
     largest = pfi.lin(stores["thresholdValue"]) - pfi.lin(stores["min"])
     pe = need_fn(mod, "varintPFOREncode")
     diverts = any(i.op == "icmp" and i["pred"] in ("eq", "ne") and any(o["k"] == "inst" and pe.imap[o["v"]].op == "load" and field_of(pe, mod, pe.imap[o["v"]].ops[0]) == "exceptionMarker" for o in i.ops) for i in pe.insts())
-    for (val, wres, site) in mv:
+    for (val, wres, site) in [m_[:3] for m_ in mv]:
         d = pfi.lin(val) - largest
         okm = (d.is_const() and d.c >= 1) or diverts
         run.check(okm, "A6-pfor-marker-not-a-storable-offset", {"measured": repr(pfi.lin(val)), "largest_offset": repr(largest)},
